@@ -40,6 +40,14 @@ class CollectWriter:
         self.blocks.append((block_address, bytes(block)))
 
 
+def labels_of(resolver):
+    """get_all_labels() as a list of (name, value) pairs, whatever container the code returns them in"""
+    ls = resolver.get_all_labels()
+    if isinstance(ls, dict):
+        return list(ls.items())
+    return [tuple(x) for x in ls]
+
+
 def flatten(blocks):
     """ordered list of (file offset, byte)"""
     out = []
@@ -111,7 +119,7 @@ def assemble(src: str, rom: str = "low_rom", defines=None, cwd: str | None = Non
             if err is not None:
                 res["status"] = "rejected"
                 res["error"] = err
-            res["labels"] = list(p.resolver.get_all_labels())
+            res["labels"] = labels_of(p.resolver)
     except Timeout:
         res["status"] = "timeout"
     except RecursionError as e:
@@ -233,7 +241,7 @@ def trace_assemble(src: str, rom: str = "low_rom", cwd: str | None = None, timeo
             if err is not None:
                 res["status"] = "rejected"
                 res["error"] = err
-            res["labels"] = list(p.resolver.get_all_labels())
+            res["labels"] = labels_of(p.resolver)
             res["symbols"] = dict(p.resolver.scopes[0].symbols)
     except Timeout:
         res["status"] = "timeout"
